@@ -3,8 +3,12 @@ from .C02 import e2_jobs, META as _M
 
 META = dict(_M)
 META["assumptions"] = _M["assumptions"] + ["eigvalsh/eigh return the spectrum (assumed library contract): verdicts are relative to it"]
-CLASSES = ["contracts.C01_state:StateTraceOne"]
+CLASSES = ["contracts.C01_state:StateTraceOne"] + ["contracts.C01_all:" + c for c in (
+    "MutilHermitian", "MutilPsd", "StatePsd", "StatePhysical", "StateConstructor", "OriginZero",
+    "PovmIdentitySum", "PovmPsd", "GateTp", "GateCp", "MProcessSumTp")]
 
 
 def jobs(tier, seed):
     return e2_jobs("C01", CLASSES, tier, seed)
+
+CLAIM = {'engine': 'E2-symtwin', 'level': 'proof', 'text': "Every verdict function is executed unmodified with symbolic parameters and symbolic atol in [1e-13,1e-2]; the VC 'verdict <=> mathematical definition with atol the only slack' is discharged by z3 on every path; constructor raise conditions and origin/zero objects likewise.", 'note': 'PSD verdicts are relative to the assumed eigvalsh contract (real ascending spectrum); all-inputs@config. Floats as reals.', 'technique': 'contract-based deductive verification (symbolic execution of the real source -> VCs, z3)'}
